@@ -35,4 +35,12 @@ theorem caller_released_witness :
     ∃ s, Reachable 1 0 s ∧ s.pcs 0 = .waitEv ∧ (∀ t, t ≠ 0 → s.pcs t = .idle ∨ s.pcs t = .out) ∧ s.pcs 1 = .out :=
   ApplyP.caller_released_witness
 
+/-- **No deadlock in dispatch_apply**: for n > 0, if the caller has entered `_dispatch_apply_invoke2` and no thread that
+    has entered it can take a further step, the caller has returned. Helpers that never run (no thread was available) are
+    exactly the threads still `idle`; the apply does not depend on them. -/
+theorem quiescent_returned {n : Nat} {c : Tid} {s : St} (h : Reachable n c s) (hn : 0 < n)
+    (hent : s.pcs c ≠ .idle) (hstuck : ∀ t, s.pcs t ≠ .idle → step n c s.sh t (s.pcs t) = []) :
+    s.pcs c = .returned :=
+  ApplyP.quiescent_returned h hn hent hstuck
+
 end C10
